@@ -99,17 +99,23 @@ PENDING = {}
 
 # rules added after the first version of a claim (see the "As built" notes of DESIGN.md §4)
 ADDENDA = {
- "C03": " Also decided (S3 tree links): a parse function returning a statement/expression list returns exactly its sub-parser results in order and every child link of a node is a sub-parser result or a node built on that path — scopes follow the tree, so a parser that flattens, drops or splices blocks is reported.",
- "C05": " Also decided (S4, shared with C03): the parser hands every statement of a body or block to the tree, none dropped, reordered or spliced.",
- "C06": " Also decided (S0): the faults are detected — the name rules of C03 (undefined name, redeclaration) and the call-protocol rules of C04 (callee kind, arity, built-in error) hold on every path to the operation; detection of operator, index, property and built-in faults is decided under C02, C11, C12, C17.",
- "C07": " Also decided (P6 typed nil): no pointer whose provenance includes the nil constant is converted to an interface without a dominating nil test.",
- "C08": " Also decided: S6 — a node that assignment() would accept as a target is never handed on unchanged by a function that consumed further tokens around it (parenthesised targets are rejected); S7 — comments and strings end exactly where the language says (shared with C09).",
- "C09": " Also decided (S7 extents): a // comment stops only at a newline or the end of input, a /* */ comment only behind its first */ lying behind the opener, a string only behind its first quote; unterminated forms are reported only at the end of input; the number path adds its token unless ParseFloat of the unconditionally transliterated lexeme fails.",
+ "C02": " Also decided (shared rules): `+` splices in a number's text as দেখাও prints it — every value-to-text site is fmt %v, no second number-to-text routine (C15's rule) — and == / != compare numbers by value because every number has one Go representation (C16's universe rule).",
+ "C03": " Also decided: S3 tree links — a parse function returning a statement/expression list returns exactly its sub-parser results in order and every child link of a node is a sub-parser result or a node built on that path (scopes follow the tree, so a parser that flattens, drops or splices blocks is reported); the function activation binds the function's own name and its parameters by position (C04's rule under C03's name).",
+ "C04": " Also decided: the activation binds the function's own name; S6 balanced activation state — a counter the interpreter raises in a function (call depth, nesting level) is restored on every return path of that function (defer-aware), so finished calls leave no residue.",
+ "C05": " Also decided: S4 (shared with C03) the parser hands every statement of a body or block to the tree; S2 the truthiness table of isTruthy for every value kind (C14's rule), since arms and loops depend on conditions only through it.",
+ "C06": " Also decided (S0): the faults are detected — the name rules of C03 (undefined name, redeclaration), the call-protocol rules of C04 (callee kind, arity, built-in error) and C02's operator table (type mismatch, zero divisor, negative shift reported before the operation) hold on every path to the operation; detection of index, property and built-in faults is decided under C11, C12, C17.",
+ "C07": " Also decided: P6 typed nil — no pointer whose provenance includes the nil constant is converted to an interface without a dominating nil test; P8 env-chain — Environment.Parent is fixed at construction, so the parent walk of Get/Assign is finite (C03's constructor rule).",
+ "C08": " Also decided: S6 — a node that assignment() would accept as a target is never handed on unchanged by a function that consumed further tokens around it (parenthesised targets are rejected); S7 — comments and strings end exactly where the language says (shared with C09); every name token stored as a declared variable or function name has been looked up in the reserved table, and found absent, on that path.",
+ "C09": " Also decided: S7 extents — a // comment stops only at a newline or the end of input, a /* */ comment only behind its first */ lying behind the opener, a string only behind its first quote; unterminated forms are reported only at the end of input; the number path adds its token unless ParseFloat of the unconditionally transliterated lexeme fails; the reporter the scanner calls writes its diagnostic and raises the flag on every path.",
  "C12": " Also decided (S4, shared with C15): the print statement hands the whole value to the one text function (fmt %v), no hand-written traversal.",
+ "C13": " Also decided: listing the keys of an object is one pass over the shared ordering function on every call, nothing remembered between calls (C12's rule).",
  "C14": " Also decided (S4, shared with C16/C18): nothing outside eval's dispatch tests the syntactic kind of an operand, so no operand expression is rewritten between parsing and evaluation.",
  "C15": " Also decided: the text functions read and write no package-level state (the text of a value depends on the value alone).",
+ "C16": " Also decided (S2): what an operator yields depends on the operand values only (C02's operator table), and a string literal denotes exactly the text between its quotes (C09/S6), like text from every other producer.",
  "C17": " Also decided: the call clause compares the argument count with Arity() for every callee before invoking it (shared with C04), which is what the fixed-arity built-ins rely on.",
- "C19": " Also decided: unterminated comments and strings are reported exactly when the input ends inside one (shared extents rule), so a lexical error cannot be classified as success or the reverse.",
+ "C18": " Also decided: comments are layout — they end where the language says (extents rule of C09); evaluating a parenthesised expression performs nothing but the evaluation of its operand (no store, counter, report or output on the way, including eval's prologue).",
+ "C19": " Also decided: unterminated comments and strings are reported exactly when the input ends inside one (shared extents rule); a run that hit a runtime error ends — eval is a no-op once the flag is set and no loop cycles in that state (C06's rules) — so status 70 is actually reached.",
+ "C20": " Also decided: a line that fails at run time still ends (C06's rules: eval is a no-op once the flag is set, no loop cycles in that state), so the session answers the next line.",
 }
 for _k, _v in ADDENDA.items():
     CLAIMS[_k]["text"] += _v
